@@ -33,7 +33,25 @@ const (
 // Run decodes the case's transaction with the real decoder, validates it with
 // the real Validate against the fake store under recover, records the model
 // case and applies the oracle(s).
+//
+// Every case is evaluated under BOTH values of the fork flag (kernel/self.go validates
+// finalized snapshots with fork = true): the twin runs the implementation and the
+// oracles on the same transaction and view with the flag flipped; it is also sent to the
+// model when its decision class differs from the primary's (otherwise oracle only).
 func Run(c *vh.Ctx, cs Case, opt Options) {
+	class := runOne(c, cs, opt, "")
+	if class == "" {
+		return
+	}
+	twin := cs
+	twin.Fork = !cs.Fork
+	twin.Twin = true
+	runOne(c, twin, opt, class)
+}
+
+// runOne returns the observed decision class ("" when the transaction did not decode).
+// primary != "" marks the fork twin of a case whose primary run had that class.
+func runOne(c *vh.Ctx, cs Case, opt Options, primary string) string {
 	var real common.DataStore
 	if cs.Badger != nil {
 		env, err := badgerFor(cs.Badger)
@@ -53,11 +71,11 @@ func Run(c *vh.Ctx, cs Case, opt Options) {
 	if pan {
 		// outside C05 (decoder totality is C06), but never silently dropped
 		c.Fail("decoder-panic", fmt.Sprintf("UnmarshalVersionedTransaction panicked: %v", pv), cs)
-		return
+		return ""
 	}
 	if err != nil {
 		c.Count("undecodable")
-		return
+		return ""
 	}
 	consistent, why := st.ViewConsistent()
 
@@ -93,11 +111,21 @@ func Run(c *vh.Ctx, cs Case, opt Options) {
 	if !consistent {
 		kind = cs.Kind + "/inconsistent-view/" + class
 	}
-	if len(cs.Muts) == 0 {
+	if primary != "" {
+		// the fork twin: one distribution line per (fork value, class pair), model only on a class change
+		kind = fmt.Sprintf("fork-twin(fork=%v)/%s->%s", cs.Fork, primary, class)
+		if primary == class {
+			term = ""
+		}
+	} else if len(cs.Muts) == 0 {
 		c.Count("unmutated/" + class)
 	}
 	for _, m := range cs.Muts {
-		c.Count("mut:" + m + "/" + class)
+		if primary == "" {
+			c.Count("mut:" + m + "/" + class)
+		} else if primary != class {
+			c.Count("mut:" + m + "/fork-changes-decision")
+		}
 	}
 	if opt.RejectSample > 1 && class == ClassReject && int(sum[31])%opt.RejectSample != 0 {
 		term = ""
@@ -123,6 +151,7 @@ func Run(c *vh.Ctx, cs Case, opt Options) {
 			c.Fail("conservation", msg, cs)
 		}
 	}
+	return class
 }
 
 // LoadCorpus reads the static corpus cases (replay-format JSON files) of a property.
